@@ -448,10 +448,10 @@ def run_rules(run: Run, prog: Program) -> None:
 
 def check(run: Run, prog: Program, tier: str) -> str:
     run.rule("C07.ALIGN", "per return path: window_end ≡ align_to (mod period), now < window_end <= now + "
-             "2*period, first timer tick == window_end")
+             "2*period, first timer tick == window_end; one clock reading per path, in UTC")
     run.rule("C07.STEP", "_window_end written only by constructor and the per-tick `+= period`; the "
-             "advance happens exactly once per tick after the gather and before any raise/break; "
-             "the timer triggers all missed ticks")
+             "advance happens exactly once per tick after the gather and before any raise/break; the gather "
+             "cannot raise for a failing series (return_exceptions=True); the timer triggers all missed ticks")
     run.rule("C07.SAME", "all series of a tick get self._window_end and emit it unchanged")
     run.rule("C07.ONE", "Resampler.resample() is started only by the actor's supervising loop and only when the "
              "previous resampling task is absent or finished; the task variable is only reset when finished")
